@@ -285,6 +285,8 @@ def main():
              formats="jsonschema,openapi", tier=c.tier)
     # chains of struct members flattened into options several levels deep (sibling assignment paths of length >= 4)
     r.stream("c09-lab-deep", n=6 if quick else 24, seed=c.seed + 13, deep=1, tier=c.tier)
+    # two cog packages: members referencing constants of a library package and of their own package
+    r.stream("c09-lab-lib", n=6 if quick else 20, seed=c.seed + 17, lib=1, tier=c.tier)
     r.report()
 
     st = r.stats
